@@ -714,7 +714,11 @@ def make_step(rec, cfg, mode, tier):
         queued for an unloaded side must come out agreeing"""
         view = {"P": {}, "C": {}}
         try:
-            for s, names, attr in (("P", ctx.pn, w.p_attr), ("C", ctx.cn, w.c_attr)):
+            # child side first: a many-to-one is resolved from the in-memory
+            # foreign key through the identity map (no flush), so it shows
+            # what the operation left in memory; the collection loads that
+            # follow autoflush first
+            for s, names, attr in (("C", ctx.cn, w.c_attr), ("P", ctx.pn, w.p_attr)):
                 for n in names:
                     view[s][n] = _names(getattr(ctx.objs[n], attr))
         except (sa_exc.SQLAlchemyError, AssertionError) as e:
@@ -723,7 +727,7 @@ def make_step(rec, cfg, mode, tier):
         rec.count("read_all_probes")
         dis = RelModel.disagreements(view, skip)
         if dis:
-            fail("disagree", pre, op, dis[0], hist_, "hidden")
+            fail("disagree", pre, op, dis[0], hist_)
             return False
         if tainted:
             return True
